@@ -12,7 +12,8 @@ EXPLANATION = ("Sound static analysis: census of every builtin arithmetic operat
                "std call in every body reachable from the whole build/write/parse/query API (mapper construction, cache "
                "writer, cache reader, trace parsers, mapping metadata), each discharged by a stated local rule; narrowing "
                "casts are enumerated and each needs a stated harmlessness argument; the 'or error' clause: the only fallible "
-               "results are io::Result of the sink (Vec<u8> never fails) and fmt::Result of String (never fails). "
+               "results are io::Result of the sink (Vec<u8> never fails) and fmt::Result of String (never fails); parsing the freshly written cache cannot "
+               "fail because the writer emits exactly the sections and counts the parser checks (C09.2-3 / C11.1 rules run here as premises). "
                "Assumption A-size for 32-bit record counters. Not decided: allocation failure, recursion depth, time.")
 RULE_TEXT = R12.RULE_TEXT + "; plus one instance per narrowing cast"
 TRUSTED = R12.TRUSTED + ["assumption A-size: mapping input < 4 GiB (the format's u32 offsets presuppose it)"]
@@ -112,6 +113,18 @@ def run(ctx, rep):
                               expected="MIR asserts %s" % mc, detail="census walker blind spot (checker problem)")
         rep.ok("C13.xcheck", "C13/walker-crosscheck", found="%d bodies of proguard+watto+leb128: typed-tree site counts == MIR Assert counts (%d mismatches)" % (n_bodies, n_bad)) if not n_bad else None
         rep.floor("C13.xcheck", n_bodies, 250, "bodies cross-checked")
+    # "... or error": parsing the cache that was just written must succeed. Premises (shared with C09/C11): the writer emits
+    # the sections the parser expects with exactly the counts its header declares, and the parser's checks are the documented ones.
+    import cachefmt as CF
+    import builder_rules as BR
+    fx0 = ctx.facts("")
+    wv = CF.WriterView(fx0, rep, "C13.noerr")
+    if wv.ok:
+        seqs = CF.check_emission(fx0, rep, "C13.noerr", wv)
+        if seqs:
+            CF.check_sections(fx0, rep, "C13.noerr", wv, seqs)
+        BR.check_method_effects(fx0, rep, "C13.noerr", "cache")
+    CF.check_parse(fx0, rep, "C13.noerr")
     CR.run_controls(ctx, rep, "C13.census")
     rep.assumptions += ["A-size: mapping input < 4 GiB", "allocation failure / stack exhaustion out of scope",
                         "io::Write for Vec<u8> and fmt::Write for String are infallible (std facts)"]
